@@ -54,7 +54,7 @@ def resolve(case, name, default):
     return default
 
 
-def gen_case(rng):
+def gen_case(rng, zero_override=False):
     naxes = rng.choice([1, 2, 2, 3])
     axes = ["X", "Y", "Z"][:naxes]
     N = {a: rng.randint(3, 4) for a in axes}   # widths (<= 2) never exceed a length (>= 2)
@@ -144,7 +144,17 @@ def gen_case(rng):
            "boundary": G.kwval(rng, axes, G.WORDS), "fill": G.kwval(rng, axes, [1, 4, -3]),
            "pad_before": not values["pad_before"]}
     bound, call = {}, {}
-    for o in OPTS:
+    if zero_override and shared:
+        # a fixed pattern run at every seed: a ufunc defined with a non-zero fill value, called with zero
+        # (0, 0.0, or a mapping of zeros): zero is a fill value like any other, the call-time value wins
+        mode = "decorator" if mode in ("apply", "grid") else mode
+        bwv = [[d, [1, 1]] for d in shared]
+        values["bw"] = bwv
+        bound = {"bw": bwv, "boundary": "fill", "fill": rng.choice([5, {a: 5 for a in axes}])}
+        call = {"fill": rng.choice([0, 0.0, {a: 0 for a in axes}])}
+        if not pbv:
+            bound["pad_before"] = False
+    for o in (OPTS if not (zero_override and shared) else []):
         r = rng.random()
         if mode in ("apply", "grid"):
             if r < 0.75:
@@ -234,7 +244,7 @@ def generate(rng, tier):
     n = 320 if tier == "quick" else 5000
     cases = []
     for i in range(n):
-        c = gen_case(rng)
+        c = gen_case(rng, zero_override=(i % 20 == 0))
         if i % 6 == 5:
             c = malform(rng, c)
         cases.append(c)
